@@ -247,6 +247,66 @@ static void scen_stream_fd() {
   set_context("");
 }
 
+// The same read-to-end / exact-size helpers on a REAL kernel pipe whose writer is staggered by the
+// simulator (C14: "real pipes with staggered writers").
+static void scen_real_pipe() {
+  count("scenario.real_pipe");
+  size_t size = draw_size("P.size");
+  if (size > 150000) size = 150000;
+  string D = gen_content(size, choose(1 << 16, "P.content"));
+  size_t max_chunk = pick({4096, 1, 7, 100, 255, 256, 257, 16383, 16384, 16385, 60000}, "P.chunk");
+  int fd = vfs::open_real_pipe_stream(D, max_chunk);
+  mark_nontrivial();
+  note("real pipe fed with " + std::to_string(size) + " bytes in pieces of at most " + std::to_string(max_chunk));
+  unsigned op = choose(3, "P.op");
+  vfs::calls_reset();
+  bool threw = false;
+  string what, r;
+  if (op == 0) {
+    set_context("read_all(fd)/real_pipe");
+    ev("op.read_all_pipe", size);
+    try {
+      r = phosg::read_all(fd);
+    } catch (const std::exception& e) {
+      threw = true;
+      what = e.what();
+    }
+    check_budget("read_all_fd");
+    if (threw) fail("read_all_fd/threw_without_fault", "real_pipe", "read_all(fd) on a pipe with a slow writer threw '" + what + "'");
+    hash_bytes(r.data(), r.size());
+    if (r != D) fail(string("read_all_fd/") + diff_kind(r, D), "real_pipe", "read_all(fd) on a real pipe with a staggered writer: " + describe_diff(r, D));
+    VS_PROBE("read_all_fd.real_pipe");
+  } else if (op == 1) {
+    // readx of everything: exact or throw (a slow writer may legitimately make it throw)
+    set_context("readx(fd,n)/real_pipe");
+    ev("op.readx_pipe", size);
+    try {
+      r = phosg::readx(fd, size);
+    } catch (const std::exception& e) {
+      threw = true;
+      what = e.what();
+    }
+    if (!threw && r != D) fail(string("readx_fd/") + diff_kind(r, D), "real_pipe", "readx(fd,n) returned normally with wrong contents on a real pipe: " + describe_diff(r, D));
+  } else {
+    // clamping reads until EOF: the pieces must add up
+    set_context("read(fd,n)/real_pipe");
+    ev("op.read_pipe", size);
+    string all;
+    for (size_t i = 0; i < size + 4; i++) {
+      string piece;
+      try {
+        piece = phosg::read(fd, pick({4096, 1, 100, 65536}, "P.read.n"));
+      } catch (const std::exception& e) {
+        fail("read_fd/threw_without_fault", "real_pipe", string("read(fd,n) threw on a healthy pipe: ") + e.what());
+      }
+      if (piece.empty()) break;
+      all += piece;
+    }
+    if (all != D) fail(string("read_fd/") + diff_kind(all, D), "real_pipe", "successive read(fd,n) calls on a real pipe do not add up to what the writer sent: " + describe_diff(all, D));
+  }
+  set_context("");
+}
+
 static void scen_stream_file() {
   count("scenario.stream_FILE");
   size_t size = draw_size("S.size");
@@ -1235,7 +1295,8 @@ static void scen_poll() {
 
 static void run() {
   vfs::reset();
-  switch (choose(8, "scenario")) {
+  switch (choose(9, "scenario")) {
+    case 8: scen_real_pipe(); break;
     case 0: scen_stream_fd(); break;
     case 1: scen_stream_file(); break;
     case 2: scen_lines(); break;
@@ -1258,7 +1319,7 @@ int main(int argc, char** argv) {
   e.quick_cap_s = 120;
   e.thorough_cap_s = 1500;
   e.rule =
-      "one run = one scenario (descriptor stream, FILE* stream, line reader, whole files, exact-size I/O, directory tree, scoped_fd history, Poll history) "
+      "one run = one scenario (descriptor stream, real pipe with staggered writer, FILE* stream, line reader, whole files, exact-size I/O, directory tree, scoped_fd history, Poll history) "
       "with sizes, contents, chunking, fault plan and operation sequence drawn from the seed; distinct = distinct hash of the event log "
       "(every kernel call with its result, every library call); non-trivial = at least one fault fired, delivery was chunked, a line exceeded the "
       "256-byte block, a tree had more than one entry, or the run is a scoped_fd/Poll history";
@@ -1270,10 +1331,11 @@ int main(int argc, char** argv) {
   e.components = {{"phosg Filesystem.cc/.hh (read_all, read, readx, preadx, freadx, fgetcx, fgets, load_file, save_file, *_object_file, *_vector_file, writex, pwritex, fwritex, list_directory(_sorted), unlink, basename, dirname, scoped_fd, Poll)", "real code from the repository working tree"},
       {"glibc stdio", "real"},
       {"kernel: descriptors, regular files, pipes-like streams, directories, poll readiness", "stub: vsim/vfs.cc behind -Wl,--wrap and fopencookie"},
+      {"kernel pipe in the real_pipe scenario", "real pipe; its writer is the simulator (one drawn chunk before each read of the library)"},
       {"concurrent deleter process", "stub: task scheduled between the library's directory calls"}};
   e.expected_probes = {"read_all_fd.saw_short_read", "read_all_fd.crossed_16k_block", "read_all_file.error_mid_stream", "read_all_file.crossed_16k_block",
       "fgets.line_longer_than_block", "fgets.line_longer_than_two_blocks", "fgets.line_exactly_block", "readx.threw_on_short", "save_file.threw_on_write_fault",
-      "load_file.threw_on_read_fault", "unlink.threw_on_eacces", "scoped_fd.move_assign_over_open", "scoped_fd.failed_open", "poll.readd_existing", "poll.remove_present"};
-  e.expected_faults = {"short_read", "short_write", "EIO@read", "EINTR@read", "ENOSPC@write", "EINTR@write", "EINTR@poll", "EACCES@unlink", "EACCES@rmdir", "concurrent_delete", "ENOSPC@capacity", "EINTR@close"};
+      "load_file.threw_on_read_fault", "unlink.threw_on_eacces", "scoped_fd.move_assign_over_open", "scoped_fd.failed_open", "poll.readd_existing", "poll.remove_present", "read_all_fd.real_pipe"};
+  e.expected_faults = {"short_read", "short_write", "EIO@read", "EINTR@read", "ENOSPC@write", "EINTR@write", "EINTR@poll", "EACCES@unlink", "EACCES@rmdir", "concurrent_delete", "ENOSPC@capacity", "EINTR@close", "staggered_pipe_write"};
   return driver_main(argc, argv, e);
 }
